@@ -89,7 +89,7 @@ inductive ProcCont (P : Pipe) (j : Job) : Pipe → Prop
         got := j :: (flush P.pending.length { P with produced := P.produced + j.n, startIndex := P.startIndex + j.n }).1.got }
 
 theorem procBatch_cases (P : Pipe) (j : Job) :
-    (procBatch P j).cpc = .ret ∨ ∃ Q, ProcCont P j Q ∧ procBatch P j = finishBatch Q := by
+    ((procBatch P j).cpc = .ret ∧ (procBatch P j).got = P.got) ∨ ∃ Q, ProcCont P j Q ∧ procBatch P j = finishBatch Q := by
   unfold procBatch
   simp only
   by_cases h1 : j.first < P.startIndex
@@ -106,7 +106,9 @@ theorem procBatch_cases (P : Pipe) (j : Job) :
         | none =>
           simp only
           by_cases h3 : (flush P.pending.length { P with produced := P.produced + j.n, startIndex := P.startIndex + j.n }).2 = true
-          · left; simp [h3]
+          · left
+            simp only [h3, if_true, true_and]
+            exact (flush_frame _ _).2.2
           · right
             simp only [h3]
             exact ⟨_, .emit h2 (by simpa using h3), rfl⟩
@@ -116,5 +118,14 @@ theorem procBatch_cases (P : Pipe) (j : Job) :
       | none =>
         right
         exact ⟨_, .buffer (by omega), rfl⟩
+
+theorem finishBatch_got (Q : Pipe) : (finishBatch Q).got = Q.got ∧ (finishBatch Q).startIndex = Q.startIndex ∧
+    (finishBatch Q).pending = Q.pending := by
+  unfold finishBatch; split <;> exact ⟨rfl, rfl, rfl⟩
+
+theorem procCont_got {P Q : Pipe} {j : Job} (h : ProcCont P j Q) : Q.got = j :: P.got := by
+  cases h with
+  | buffer _ => rfl
+  | emit _ _ => simp only; rw [(flush_frame _ _).2.2]
 
 end Octo.JsonPipe
